@@ -32,6 +32,18 @@ BIN = {"+": ["-"], "-": ["+"], "*": ["+"], "/": ["*"], "<<": [">>"], ">>": ["<<"
 WORDS = {"true": "false", "false": "true", "is_some": "is_none", "is_none": "is_some", "min": "max", "max": "min"}
 
 
+SIBLINGS = [
+    ("msb", "lsb"), ("lsb", "msb"), ("Msb", "Lsb"), ("Lsb", "Msb"), ("MSB", "LSB"), ("LSB", "MSB"),
+    ("data_byte_1", "data_byte_2"), ("data_byte_2", "data_byte_1"),
+    ("Increment", "Decrement"), ("Decrement", "Increment"), ("INCREMENT", "DECREMENT"), ("DECREMENT", "INCREMENT"),
+    ("DataEntry\\b", "DataIncrement"), ("NoteOn", "NoteOff"), ("NoteOff", "NoteOn"),
+    ("NON_REGISTERED", "REGISTERED"), ("(?<!NON_)REGISTERED", "NON_REGISTERED"),
+    (r"(?<=[\w)])\.0\b", ".1"), (r"(?<=[\w)])\.1\b", ".0"), (r"(?<=[\w)])\.2\b", ".1"),
+    ("Start\\b", "Stop"), ("Continue\\b", "Start"),
+    ("high_nibble", "low_nibble"), ("low_nibble", "high_nibble"),
+]
+
+
 def code_part(line):
     """the part of a line that is code (cuts a trailing // comment; good enough for this crate)"""
     i = line.find("//")
@@ -100,6 +112,11 @@ def mutants_of_file(path):
         if m:
             add(m.start(2), m.group(2), "true", "condition_true")
             add(m.start(2), m.group(2), "false", "condition_false")
+        # sibling identifiers / variants swapped (one occurrence at a time): msb <-> lsb inside any
+        # identifier, data bytes, increment <-> decrement, note on <-> off, tuple fields .0 <-> .1
+        for a, b in SIBLINGS:
+            for m in re.finditer(a, code):
+                add(m.start(), m.group(0), b, "sibling_swap")
         for m in re.finditer(r"\.take\(\)", code):
             add(m.start(), ".take()", "", "take_dropped")
         for m in re.finditer(r"(?<=[:=] )Some\((?:[^()]|\([^()]*\))*\)(?=[,;]\s*$)", code):
@@ -277,6 +294,11 @@ def report(ms):
     for r in by.get("killed_by_check", []):
         kb[r["killed_by"]] = kb.get(r["killed_by"], 0) + 1
     L.append("First killing check: " + ", ".join("%s: %d" % (k, v) for k, v in sorted(kb.items())) + "\n")
+    cls = {"equivalent": 0, "outside": 0, "other": 0}
+    for r in by.get("survived", []):
+        n = notes.get(r["id"], "")
+        cls["equivalent" if n.startswith("equivalent") else "outside" if n.startswith("outside") else "other"] += 1
+    L.append("Survivors by classification: %d equivalent mutants, %d outside every listed property, %d unexplained.\n" % (cls["equivalent"], cls["outside"], cls["other"]))
     L.append("## Survivors\n")
     L.append("| id | location | mutation | source line | classification |\n|---|---|---|---|---|")
     for r in sorted(by.get("survived", []), key=lambda r: (r["file"], r["line"])):
@@ -284,7 +306,7 @@ def report(ms):
     if by.get("infrastructure"):
         L.append("\n## Infrastructure outcomes (exit 2: watchdog / build) - not verdicts\n")
         for r in by["infrastructure"]:
-            L.append("* %s %s:%d %s `%s` -> `%s`: %s" % (r["id"], r["file"], r["line"], r["op"], r["old"][:30], r["new"][:30], (r.get("infra_tail") or "")[-160:].replace("\n", " ")))
+            L.append("* %s %s:%d %s `%s` -> `%s`: %s" % (r["id"], r["file"], r["line"], r["op"], r["old"][:30], r["new"][:30], notes.get(r["id"]) or (r.get("infra_tail") or "")[-160:].replace("\n", " ")))
     open(os.path.join(OUT, "MUTATION.md"), "w").write("\n".join(L) + "\n")
     print("\n".join(L[:12]))
 
